@@ -38,7 +38,7 @@ def stream_cfg(kinds, maxlen, rich, dimcheck=True, laws=("AllLaws",), sim=False,
 
 
 def run_streams(ctx, kinds, exh_narrow, exh_wide, sim_num, sim_depth, rich, n_random_concs, dimcheck=True,
-                features=None, tag="default", laws=("AllLaws",), unitgrid_len=0, structure_only=False):
+                features=None, tag="default", laws=("AllLaws",), unitgrid_len=0, structure_only=False, any_error_id=False):
     """Returns the list of mismatches (already recorded as violations)."""
     narrow = [k for k in kinds if k not in WIDE]
     wide = [k for k in kinds if k in WIDE]
@@ -64,7 +64,7 @@ def run_streams(ctx, kinds, exh_narrow, exh_wide, sim_num, sim_depth, rich, n_ra
     concs = concs_for(ctx, n_random_concs)
     cpath = os.path.join(ctx.out, "concs.json")
     json.dump(concs, open(cpath, "w"))
-    mism, summary, _ = run_bin(bindir, "streams", ["replay", allb, cpath] + (["--structure"] if structure_only else []), timeout=3000)
+    mism, summary, _ = run_bin(bindir, "streams", ["replay", allb, cpath] + (["--structure"] if structure_only else []) + (["--any-error-id"] if any_error_id else []), timeout=3000)
     ctx.evaluations += summary.get("replays", 0)
     ctx.traces += summary.get("behaviours", 0)
     ctx.extra.setdefault("replay_summaries", []).append(summary)
@@ -90,7 +90,7 @@ def run_streams(ctx, kinds, exh_narrow, exh_wide, sim_num, sim_depth, rich, n_ra
             continue
         sig = "%s:%s" % (m["kind"], m["what"])
         ctx.violation(sig, {"replay_kind": "streams", "behaviour": beh, "conc": m["conc"], "mismatch": m,
-                            "features": features, "tag": tag, "structure_only": structure_only},
+                            "features": features, "tag": tag, "structure_only": structure_only, "any_error_id": any_error_id},
                       "%s behaviour #%d step %d: %s; expected %s, implementation gave %s (concretisation %s)" % (
                           m["kind"], m["line"], m["step"], m["what"], json.dumps(m["exp"]), json.dumps(m["got"]), json.dumps(m["conc"])))
     return mism, summary, total
@@ -105,7 +105,7 @@ def replay_streams(pid, v):
     cp = os.path.join(out, "replay_one_concs.json")
     json.dump([v["conc"]], open(cp, "w"))
     bindir = build_harness(["streams"], v.get("features"), v.get("tag", "default"))
-    mism, summary, _ = run_bin(bindir, "streams", ["replay", bp, cp] + (["--structure"] if v.get("structure_only") else []))
+    mism, summary, _ = run_bin(bindir, "streams", ["replay", bp, cp] + (["--structure"] if v.get("structure_only") else []) + (["--any-error-id"] if v.get("any_error_id") else []))
     return mism[0] if mism else None
 
 
@@ -121,7 +121,7 @@ def replay_under(ctx, tags, extra_args=None):
     for tag in tags:
         feats, dimcheck, powmode = p_config.CONFIGS[tag]
         bindir = build_harness(["streams"], feats, tag)
-        args = ["replay", allb, cpath] + (["--skip-ewma-values"] if powmode == "approx" else [])
+        args = ["replay", allb, cpath] + (["--skip-ewma-values"] if powmode == "approx" else []) + list(extra_args or [])
         mism, summary, _ = run_bin(bindir, "streams", args, timeout=3000)
         ctx.evaluations += summary.get("replays", 0)
         ctx.extra["replay_summary_" + tag] = summary
@@ -142,7 +142,7 @@ def replay_under(ctx, tags, extra_args=None):
                               tag, m["kind"], m["line"], m["step"], m["what"], json.dumps(m["exp"]), json.dumps(m["got"])))
 
 
-def stream_traces(ctx, kinds, n, structure_only=False):
+def stream_traces(ctx, kinds, n, structure_only=False, check_err_id=True):
     """impl -> spec: random histories on arbitrary floats recorded from the real streams (with real twins), validated by TLC.
     structure_only (C05): return value, category, error identity, timestamp, purity, reset twin and skip twin only."""
     from p_pure import trace_check
@@ -150,7 +150,7 @@ def stream_traces(ctx, kinds, n, structure_only=False):
     what = ("stateful streams on arbitrary floats (category, error identity, timestamp, purity, reset / skip twins)" if structure_only else
             "stateful streams on arbitrary floats (category, error identity, timestamp, reset / skip / shift / scale / variant twins, filter bounds, f64 reference)")
     trace_check(ctx, "StreamsTrace", bindir, "streams", [ctx.seed, n, ",".join(kinds)], "floats", what,
-                "streams_trace", timeout=1500, constants={"StructureOnly": structure_only})
+                "streams_trace", timeout=1500, constants={"StructureOnly": structure_only, "CheckErrId": check_err_id})
 
 
 @replayer("streams_trace")
@@ -159,7 +159,7 @@ def replay_streams_trace(pid, v):
     ctx = vlib.Ctx(pid + "_replay", "quick", 1)
     bindir = build_harness(["streams"])
     ok = trace_check(ctx, "StreamsTrace", bindir, "streams", v["record_args"], "floats", "stateful streams on arbitrary floats", "streams_trace",
-                     constants=v.get("constants") or {"StructureOnly": False})
+                     constants=v.get("constants") or {"StructureOnly": False, "CheckErrId": True})
     return None if ok else ctx.violations[0][2]
 
 
@@ -188,8 +188,8 @@ def finish_streams(ctx, summary, total, what):
 def c04(ctx):
     p = (dict(exh_narrow=5, exh_wide=0, sim_num=400, sim_depth=24, rich=False, n_random_concs=2) if ctx.tier == "quick" else
          dict(exh_narrow=4, exh_wide=0, sim_num=500, sim_depth=64, rich=True, n_random_concs=6))
-    mism, summary, total = run_streams(ctx, ["PID"], **p)
-    stream_traces(ctx, ["PID"], 300 if ctx.tier == "quick" else 5000)
+    mism, summary, total = run_streams(ctx, ["PID"], any_error_id=True, **p)       # which error is shown is C05's clause
+    stream_traces(ctx, ["PID"], 300 if ctx.tier == "quick" else 5000, check_err_id=False)
     finish_streams(ctx, summary, total,
                    "Each PID behaviour is also fed to the same controller assembled from the crate's difference, integral, "
                    "derivative, none-to-value, product, quantity-to-float and sum streams (compared after every present sample); "
@@ -203,8 +203,8 @@ def c10(ctx):
     kinds = ["Integral", "Derivative", "AccToState", "VelToState", "PosToState"]
     p = (dict(exh_narrow=4, exh_wide=0, sim_num=400, sim_depth=16, rich=False, n_random_concs=2, unitgrid_len=2) if ctx.tier == "quick" else
          dict(exh_narrow=4, exh_wide=0, sim_num=500, sim_depth=64, rich=True, n_random_concs=6, unitgrid_len=3))
-    mism, summary, total = run_streams(ctx, kinds, **p)
-    stream_traces(ctx, kinds, 400 if ctx.tier == "quick" else 6000)
+    mism, summary, total = run_streams(ctx, kinds, any_error_id=True, **p)
+    stream_traces(ctx, kinds, 400 if ctx.tier == "quick" else 6000, check_err_id=False)
     finish_streams(ctx, summary, total,
                    "Input units range over the 7x7 grid (short histories) and a few units (long histories); a wrongly "
                    "dimensioned input to a to-state converter must panic iff dimension checking is compiled in. "
@@ -253,9 +253,9 @@ def c12(ctx):
     kinds = ["EWMA", "EWMAQ", "MA", "MAQ"]
     p = (dict(exh_narrow=0, exh_wide=4, sim_num=600, sim_depth=16, rich=False, n_random_concs=2) if ctx.tier == "quick" else
          dict(exh_narrow=0, exh_wide=4, sim_num=500, sim_depth=64, rich=True, n_random_concs=4))
-    mism, summary, total = run_streams(ctx, kinds, **p)
-    stream_traces(ctx, kinds, 400 if ctx.tier == "quick" else 6000)
-    replay_under(ctx, ["libm_check", "micromath_check"])      # the EWMA's power function comes from the float back end
+    mism, summary, total = run_streams(ctx, kinds, any_error_id=True, **p)
+    stream_traces(ctx, kinds, 400 if ctx.tier == "quick" else 6000, check_err_id=False)
+    replay_under(ctx, ["libm_check", "micromath_check"], extra_args=["--any-error-id"])      # the EWMA's power function comes from the float back end
     finish_streams(ctx, summary, total,
                    "Timestamps are non-decreasing (dt 0 = repeated timestamp); windows shorter than a step, equal to it and "
                    "longer than the history; every f32-variant behaviour is also run on the Quantity variant and compared bit "
